@@ -163,6 +163,7 @@ package netconf
 //@   at call! WriteAndReturn#1 assert [C03] #exactly-the-framed-request-is-written-unredacted arg0 == serialized.framedXML && !arg1
 //@   at call WriteReturn#1 assert [C03] #an-extra-return-only-under-1.1-framing d.SelectedVersion == "1.1"
 //@   at call! NewNetconfResponse#1 assert [C03] #the-response-reports-the-bytes-that-were-framed arg0 == serialized.rawXML && arg1 == serialized.framedXML && arg4 == d.SelectedVersion
+//@   at return assert [C08] #only-the-payload-builder-advances-the-message-id d.messageID == old(d.messageID)
 //@   at call! WithCancel#1 assert [C08] #the-polling-goroutine-stops-only-when-the-call-is-over-not-on-a-deadline-of-its-own true
 //@   at call! NewTimer#1 assert [C05] #the-wait-for-the-reply-is-bounded-by-the-selected-timeout arg0 == (op.Timeout == -1 ? d.Channel.TimeoutOps : (op.Timeout == 0 ? 86400 * 1000000000 : op.Timeout))
 //@   flows [C03] #self-closing-setting-goes-to-its-parameter d.ForceSelfClosingTags only to serialize#1.forceSelfClosingTags
